@@ -406,7 +406,7 @@ class Tr:
             if op is ast.Div:
                 raise self.err(node, 'true division of two int literals')
             return f'({a} {sym} {b})', 'natlit'
-        rank = {'natlit': 0, 'bool': 0, 'nat': 1, 'int': 2, 'K': 3, 'vec': 4, 'fld': 4, 'bfld': 4}
+        rank = {'natlit': 0, 'bool': 0, 'nat': 1, 'int': 2, 'K': 3, 'vec': 4, 'fld': 4, 'bfld': 4, 'natlist': 4}
         if sa not in rank or sb not in rank or ('vec' in (sa, sb) and ({sa, sb} & {'fld', 'bfld'})):
             raise self.err(node, f'arithmetic on sorts {sa},{sb}')
         if op is ast.Div and rank[sa] < 3 and rank[sb] < 3:
@@ -425,6 +425,8 @@ class Tr:
                     return f'(if {x} p then ofNat 1 else ofNat 0)'
                 return self.coerce(x, sx, 'K', node)
             return f'(fun p => {pw(a, sa)} {sym} {pw(b, sb)})', 'fld'
+        if sa == 'vec' and sb == 'natlist':             # a float array and a shape of the same length: elementwise
+            return f'(List.zipWith (fun a b => a {sym} (ofNat b)) {a} {b})', 'vec'
         if tgt == 'vec':
             if sa == 'vec' and sb == 'vec':
                 return f'(List.zipWith (fun a b => a {sym} b) {a} {b})', 'vec'
@@ -531,6 +533,12 @@ class Tr:
                 and node.args[0].elts and all(isinstance(r, ast.List) for r in node.args[0].elts):
             rows = ['[' + ', '.join(self.E(e, env, 'K')[0] for e in r.elts) + ']' for r in node.args[0].elts]
             return '[' + ', '.join(rows) + ']', 'mat'
+        # np.array(shape, dtype=float): the sizes as floats
+        if d == 'np.array' and len(node.args) == 1 and [k.arg for k in node.keywords] == ['dtype'] \
+                and dotted(node.keywords[0].value) == 'float' and 'K' in self.fam.tparams and 'np.array' not in self.fam.prims:
+            a, sa = self._E(node.args[0], env)
+            if sa == 'natlist':
+                return f'(List.map ofNat {a})', 'vec'
         # np.array([a, b, c]) of scalars: the vector
         if d == 'np.array' and len(node.args) == 1 and not node.keywords and isinstance(node.args[0], ast.List) \
                 and node.args[0].elts and not any(isinstance(r, (ast.List, ast.Tuple)) for r in node.args[0].elts) \
@@ -642,6 +650,11 @@ class Tr:
             else:
                 raise self.err(node, f'extra positional argument {i} of {d}')
         for k in node.keywords:
+            if k.arg in p.kw and not (isinstance(k.value, ast.Name) and k.value.id in self.drop):
+                if slots[p.kw[k.arg]] is not None:
+                    raise self.err(node, f'argument {k.arg} given twice')
+                slots[p.kw[k.arg]] = k.value
+                continue
             if k.arg in PLUMBING or k.arg in p.drop_kw:
                 if k.arg in PLUMBING:
                     self.note('destination-buffer', ast.copy_location(ast.Name(id=f'{k.arg}={ast.unparse(k.value)} in {d}(..)', ctx=ast.Load()), node))
@@ -1301,6 +1314,18 @@ CIRCLE = Family(
         'np.meshgrid': Prim('meshgrid', ['fld1', 'fld1'], 'fld', doc='two fields `meshgrid_x`, `meshgrid_y`: X[i, j] = x[j], Y[i, j] = y[i]'),
     }, extra_params=EMBED, prop='C16')
 
+LEAN_TYPE['buf'] = 'Bf'
+RESIZE = Family(
+    'resize', ['K', 'A', 'D', 'Bf'], '[Add K] [Sub K] [Mul K] [Div K]', 'ResizePrims',
+    {
+        '.ndim': Prim('ndim', ['arr'], 'nat'),
+        '.dtype': Prim('dtype', ['arr'], 'dtype'),
+        '.shape': Prim('shape', ['arr'], 'natlist'),
+        'np.empty': Prim('empty', ['natlist', 'dtype'], 'buf', kw={'dtype': 1}, doc='a destination array: carries its shape and dtype'),
+        'zoom': Prim('zoom_out', ['arr', 'vec', 'nat', 'buf'], 'arr', kw={'order': 2, 'out': 3},
+                     doc='`interpolate.zoom(array, zoom, order=order, out=out)` with the defaults mode="constant", cval=0.0, prefilter=True'),
+    }, extra_params=EMBED, prop='C18')
+
 HISTO = Family(
     'histogram thresholds', ['H', 'G'], '', 'HistPrims',
     {
@@ -1358,13 +1383,15 @@ TARGETS = [
     Target('colors.py', 'rgb2lab', [('rgb', 'arr'), ('dtype', 'optD')], 'arr', COLORS2),
     Target('colors.py', 'rgb2sepia', [('rgb', 'fld')], 'fld', COLORS2),
     Target('morph.py', 'circle_se', [('radius', 'K')], 'bfld', CIRCLE),
+    # `out` is a LOCAL here (the array that fixes the output shape), not a destination-buffer parameter: it is kept
+    Target('resize.py', 'resize_to', [('im', 'arr'), ('nsize', 'natlist'), ('order', 'nat')], 'arr', RESIZE),
     # falls off the end after 63 unsuccessful steps: Python returns None and both callers fail on the tuple unpacking
     Target('convolve.py', '_wavelet_center_compute', [('oshape', 'intlist'), ('border', 'int')], 'shape_pos', WAVE,
            drop={'dtype', 'cval'}, localsorts={'position': 'slicelist'}, fallthrough_none=True),
     Target('convolve.py', 'wavelet_center', [('f', 'arr'), ('border', 'int'), ('dtype', 'dtype'), ('cval', 'K')], 'arr', WAVE, raises=True),
     Target('convolve.py', 'wavelet_decenter', [('w', 'arr'), ('oshape', 'intlist'), ('border', 'int')], 'arr', WAVE, raises=True),
 ]
-FAMILIES = [MORPH, CONV, THRESH, HISTO, LAPL, RC, SOFT, EXTREMA, STRETCH, COLORS, COLORS2, WAVE, CIRCLE]
+FAMILIES = [MORPH, CONV, THRESH, HISTO, LAPL, RC, SOFT, EXTREMA, STRETCH, COLORS, COLORS2, WAVE, CIRCLE, RESIZE]
 
 
 def _find_function(tree, name):
